@@ -21,9 +21,15 @@ import (
 
 type prop struct {
 	shortest map[string]string // failure class -> shortest failing case seen (evidence + witness mining)
+	reported map[string]int    // failure class -> failures handed to the session so far
 }
 
-func New() core.Prop { return &prop{shortest: map[string]string{}} }
+// maxPerClass bounds the failures reported per class and process: the session keeps only the
+// first 200 failures of a run, and the (frequent) known classes must not crowd out a new one.
+// Every failure is still counted in the histogram (tag "fail:<class>").
+const maxPerClass = 3
+
+func New() core.Prop { return &prop{shortest: map[string]string{}, reported: map[string]int{}} }
 
 func (*prop) ID() string { return "C17" }
 
@@ -237,11 +243,6 @@ func (p *prop) Run(line string) core.Outcome {
 		o.Failures = append(o.Failures, core.Failure{Class: "output-size",
 			What: fmt.Sprintf("output has %d runes for %d input runes (bound %d·n+%d)", utf8.RuneCount(fx), utf8.RuneCount(x), boundMul, boundAdd)})
 	}
-	for _, fl := range o.Failures {
-		if old, ok := p.shortest[fl.Class]; !ok || len(line) < len(old) {
-			p.shortest[fl.Class] = line
-		}
-	}
 	if debugClass != "" {
 		for _, fl := range o.Failures {
 			if fl.Class == debugClass && len(xs) < 200 {
@@ -249,6 +250,18 @@ func (p *prop) Run(line string) core.Outcome {
 			}
 		}
 	}
+	kept := o.Failures[:0]
+	for _, fl := range o.Failures {
+		if old, ok := p.shortest[fl.Class]; !ok || len(line) < len(old) {
+			p.shortest[fl.Class] = line
+		}
+		o.Tags = append(o.Tags, "fail:"+fl.Class)
+		if p.reported[fl.Class] < maxPerClass {
+			p.reported[fl.Class]++
+			kept = append(kept, fl)
+		}
+	}
+	o.Failures = kept
 	return o
 }
 
